@@ -125,7 +125,9 @@ def _p9(ctx):
         # d: callback runs on every alive path after the state change
         # the callback: the closure (or named function) that this destructor itself passes down
         cb = [n_.id for n_ in g.nodes if n_.id in g.live() and n_.call is not None and n_.call['inlined'] is not None
-              and str(n_.call['how']).startswith(('closure', 'fnitem')) and (F.fns.get(n_.call['name']) or {}).get('parent') == d]
+              and str(n_.call['how']).startswith(('closure', 'fnitem'))
+              and ((F.fns.get(n_.call['name']) or {}).get('parent') == d or
+                   ((F.fns.get(n_.call['name']) or {}).get('parent') in F.fresh and n_.fn not in F.xfns))]
         cb = sorted({x.rep(c_) for c_ in cb})
         okd1 = bool(cb) and all(x.must(e_, set(cb)) for e_ in alive_edges)
         okd2 = all(not x.reaches(c, a.nid) for c in cb for a in decs + listcas + setr)
